@@ -36,6 +36,18 @@ import (
 
 var cfg = params.TestChainConfig
 
+// violate reports at most 5 concrete inputs per defect class (the text before the first '/'), so that one
+// noisy class cannot crowd the others out of the result's violation list
+var violPerClass = map[string]int{}
+
+func violate(c *vh.Ctx, signature, what string, replay interface{}) {
+	cls := strings.SplitN(signature, "/", 2)[0]
+	violPerClass[cls]++
+	if violPerClass[cls] <= 5 {
+		c.Violate(signature, what, replay)
+	}
+}
+
 // ---------------------------------------------------------------- rendering (line protocol of ocaml/bloom/driver.ml)
 
 func logTok(l *types.Log, tag uint64) string {
@@ -168,9 +180,79 @@ func oracleMatch(l *types.Log, cr criteria) bool {
 // ---------------------------------------------------------------- EVM emitters
 
 type script struct {
-	logs   []scriptLog
+	pre    []scriptLog // emitted before the calls
+	logs   []scriptLog // emitted after the calls
 	revert bool
 	calls  []common.Address
+}
+
+// ---- deliberate value relations between addresses and topics (one shared pool)
+
+func lpad(a common.Address) common.Hash { return common.BytesToHash(a[:]) } // 12 zero bytes ++ address
+func rpad(a common.Address) common.Hash {
+	var h common.Hash
+	copy(h[:20], a[:])
+	return h
+}
+
+// the address in the low 20 bytes, padding bytes non-zero: differs from lpad only in the padding
+func dirtyPad(a common.Address) common.Hash {
+	h := lpad(a)
+	for i := 0; i < 12; i++ {
+		h[i] = 0xff - byte(i)
+	}
+	return h
+}
+
+// the same 20 bytes at another position
+func shifted(a common.Address) common.Hash {
+	var h common.Hash
+	copy(h[6:26], a[:])
+	return h
+}
+func lowAddr(h common.Hash) common.Address  { return common.BytesToAddress(h[12:]) }
+func highAddr(h common.Hash) common.Address { return common.BytesToAddress(h[:20]) }
+
+func relatedTopics(a common.Address) []common.Hash {
+	return []common.Hash{lpad(a), rpad(a), dirtyPad(a), shifted(a)}
+}
+
+type valuePool struct {
+	addrs []common.Address
+	tops  []common.Hash
+}
+
+// sharedPool: nCore random addresses plus the zero address and a small one; topics are the
+// related forms of every address, random words, the zero word, a near pair; and the pool
+// also holds the addresses that sit inside the random topics.
+func sharedPool(r *vh.RNG, nCore int) valuePool {
+	var p valuePool
+	p.addrs = append(p.addrs, common.BytesToAddress([]byte{0x01, 0x00}), common.Address{})
+	for i := 0; i < nCore; i++ {
+		var a common.Address
+		copy(a[:], r.Bytes(20))
+		p.addrs = append(p.addrs, a)
+	}
+	for i, a := range p.addrs {
+		p.tops = append(p.tops, lpad(a))
+		if i%2 == 0 {
+			p.tops = append(p.tops, rpad(a))
+		}
+		if i%3 == 0 {
+			p.tops = append(p.tops, dirtyPad(a), shifted(a))
+		}
+	}
+	for i := 0; i < 4; i++ {
+		t := common.BytesToHash(r.Bytes(32))
+		p.tops = append(p.tops, t)
+		if i < 2 {
+			p.addrs = append(p.addrs, lowAddr(t), highAddr(t))
+		}
+	}
+	near := p.tops[len(p.tops)-1]
+	near[31] ^= 1
+	p.tops = append(p.tops, near, common.BytesToHash([]byte{1}))
+	return p
 }
 type scriptLog struct {
 	topics []common.Hash
@@ -187,18 +269,7 @@ func (s script) code() []byte {
 		c = append(c, 0x7f)
 		c = append(c, w...)
 	}
-	for _, a := range s.calls { // CALL(gas, addr, 0, 0, 0, 0, 0); POP
-		push1(0)
-		push1(0)
-		push1(0)
-		push1(0)
-		push1(0)
-		c = append(c, 0x73)
-		c = append(c, a[:]...)
-		c = append(c, 0x62, 0x01, 0x86, 0xa0) // PUSH3 100000
-		c = append(c, 0xf1, 0x50)
-	}
-	for _, l := range s.logs {
+	emit := func(l scriptLog) {
 		for off := 0; off < len(l.data); off += 32 {
 			end := off + 32
 			if end > len(l.data) {
@@ -214,6 +285,23 @@ func (s script) code() []byte {
 		push1(byte(len(l.data)))
 		push1(0)
 		c = append(c, 0xa0+byte(len(l.topics)))
+	}
+	for _, l := range s.pre {
+		emit(l)
+	}
+	for _, a := range s.calls { // CALL(gas, addr, 0, 0, 0, 0, 0); POP
+		push1(0)
+		push1(0)
+		push1(0)
+		push1(0)
+		push1(0)
+		c = append(c, 0x73)
+		c = append(c, a[:]...)
+		c = append(c, 0x62, 0x01, 0x86, 0xa0) // PUSH3 100000
+		c = append(c, 0xf1, 0x50)
+	}
+	for _, l := range s.logs {
+		emit(l)
 	}
 	if s.revert {
 		push1(0)
@@ -247,44 +335,42 @@ func buildWorld(c *vh.Ctx, m *vh.Model, n int, density int) *world {
 	w := &world{c: c, m: m, db: aquadb.NewMemDatabase()}
 	key, _ := crypto.HexToBtcec("b71c71a67e1177ad4e901695e1b4b9ee17ae16c6668d313eac2f96dbcda3f291")
 	sender := crypto.PubkeyToAddress(key.PubKey())
-	for i := 0; i < 6; i++ {
-		w.topPool = append(w.topPool, common.BytesToHash(r.Bytes(32)))
+	// one shared pool: emitter addresses and topics stand in deliberate relations
+	// (topic = left/right-padded emitter address, same 20 bytes elsewhere, zero values ...)
+	pool := sharedPool(r, 9)
+	emitters := pool.addrs[:11] // 0x0100, the zero address, 9 random ones
+	w.topPool = pool.tops
+	w.addrPool = pool.addrs
+	rt := func() common.Hash { return pool.tops[r.Intn(len(pool.tops))] }
+	tl := func(ts ...common.Hash) scriptLog { return scriptLog{topics: ts, data: r.Bytes([]int{0, 1, 31, 32, 33, 64}[r.Intn(6)])} }
+	E := emitters
+	zero := common.Hash{}
+	scripts := []script{
+		0: {logs: []scriptLog{tl(lpad(E[0]))}},                                               // topic = own padded address
+		1: {logs: []scriptLog{tl(zero), tl(zero, zero)}},                                      // zero address emits the zero topic (= its padded address)
+		2: {logs: []scriptLog{tl(rt(), lpad(E[2])), tl(lpad(E[2]))}},                          // own padded address at position 1, then 0
+		3: {logs: []scriptLog{tl()}},                                                          // LOG0 only: target of the callers
+		4: {pre: []scriptLog{tl(lpad(E[3]), rt())}, calls: []common.Address{E[3]}, logs: []scriptLog{tl(rpad(E[4]))}}, // names E3, then E3 emits
+		5: {logs: []scriptLog{tl(dirtyPad(E[5])), tl(shifted(E[5]), rpad(E[5]))}},             // differs only in padding / position
+		6: {logs: []scriptLog{tl(lpad(E[0]), lpad(E[2]), rt(), lpad(E[0]))}},                  // 4 topics naming other emitters, one twice
+		7: {calls: []common.Address{E[0], E[2]}, logs: []scriptLog{tl(lpad(E[0])), tl(lpad(E[7]), lpad(E[7]))}}, // emitters first, their names after
 	}
-	// two pool topics that are numerically small (leading zero bytes) and a pair differing in one bit
-	w.topPool = append(w.topPool, common.BytesToHash([]byte{1}))
-	near := w.topPool[0]
-	near[31] ^= 1
-	w.topPool = append(w.topPool, near)
-	alloc := core.GenesisAlloc{sender: {Balance: new(big.Int).Lsh(big.NewInt(1), 100)}}
-	var emitters []common.Address
-	nContracts := 8
-	for i := 0; i < nContracts; i++ {
-		var a common.Address
-		copy(a[:], r.Bytes(20))
-		if i == 0 {
-			a = common.BytesToAddress([]byte{0x07}) // leading zero bytes
-		}
-		var s script
-		nl := 1 + r.Intn(3)
-		for j := 0; j < nl; j++ {
-			var l scriptLog
-			nt := r.Intn(5)
-			for k := 0; k < nt; k++ {
-				l.topics = append(l.topics, w.topPool[r.Intn(len(w.topPool))])
+	for len(scripts) < len(emitters) {
+		var sc script
+		for j := 1 + r.Intn(3); j > 0; j-- {
+			var ts []common.Hash
+			for k := r.Intn(5); k > 0; k-- {
+				ts = append(ts, rt())
 			}
-			l.data = r.Bytes([]int{0, 1, 31, 32, 33, 64}[r.Intn(6)])
-			s.logs = append(s.logs, l)
+			sc.logs = append(sc.logs, tl(ts...))
 		}
-		if i == nContracts-1 {
-			s.revert = true // its logs must not appear anywhere
-		}
-		if i == nContracts-2 && len(emitters) >= 2 {
-			s.calls = []common.Address{emitters[0], emitters[1]} // logs of several addresses in one receipt
-		}
-		alloc[a] = core.GenesisAccount{Code: s.code(), Balance: new(big.Int)}
-		emitters = append(emitters, a)
+		scripts = append(scripts, sc)
 	}
-	w.addrPool = emitters
+	scripts[len(scripts)-1].revert = true // its logs must not appear anywhere
+	alloc := core.GenesisAlloc{sender: {Balance: new(big.Int).Lsh(big.NewInt(1), 100)}}
+	for i, a := range emitters {
+		alloc[a] = core.GenesisAccount{Code: scripts[i].code(), Balance: new(big.Int)}
+	}
 	gspec := &core.Genesis{Config: cfg, Alloc: alloc, GasLimit: 8000000, Difficulty: big.NewInt(1)}
 	genesis := gspec.MustCommit(w.db)
 	var genErr interface{}
@@ -293,12 +379,19 @@ func buildWorld(c *vh.Ctx, m *vh.Model, n int, density int) *world {
 	_, genErr = vh.CatchPanic(func() {
 		blocks, receipts = core.GenerateChain(context.TODO(), cfg, genesis, aquahash.NewFaker(), w.db, n, func(i int, gen *core.BlockGen) {
 			gen.SetVersion(cfg.GetBlockVersion(gen.Number()))
-			if r.Intn(100) >= density {
+			ntx := 1 + r.Intn(3)
+			if i < 2*len(emitters) {
+				ntx = 1 // the first blocks call every emitter once, alone in its block (nothing masks its bloom bits)
+			} else if bn := i + 1; bn%64 == 63 || bn%64 == 0 || bn%64 == 1 || (bn >= 2040 && bn <= 2056) || bn >= n-2 {
+				// logs on both sides of every 64-block (hence 8-block and 2048-block) section boundary and at the head
+			} else if r.Intn(100) >= density {
 				return
 			}
-			ntx := 1 + r.Intn(3)
 			for t := 0; t < ntx; t++ {
 				to := emitters[r.Intn(len(emitters))]
+				if i < 2*len(emitters) {
+					to = emitters[i%len(emitters)]
+				}
 				tx, err := types.SignTx(types.NewTransaction(gen.TxNonce(sender), to, new(big.Int), 400000, big.NewInt(1), nil), types.HomesteadSigner{}, key)
 				if err != nil {
 					panic(err)
@@ -386,7 +479,7 @@ func (w *world) loadModel() {
 		}
 		// types.CreateBloom recomputed from the stored receipts
 		if cb := types.CreateBloom(w.receipts[n]); cb != w.blooms[n] {
-			c.Violate(fmt.Sprintf("header-bloom-not-createbloom/block%d", n), "header bloom differs from CreateBloom(receipts)",
+			violate(c, fmt.Sprintf("header-bloom-not-createbloom/block%d", n), "header bloom differs from CreateBloom(receipts)",
 				map[string]string{"block": lines[n], "createbloom": vh.Hex(cb[:])})
 		}
 		for _, rc := range w.receipts[n] {
@@ -409,7 +502,7 @@ func checkNoFalseNegative(c *vh.Ctx, what string, bloom types.Bloom, l *types.Lo
 		}
 	}
 	if miss != "" {
-		c.Violate("bloom-false-negative/"+what+"/"+logTok(l, 0), "a log's address/topic tests negative in the bloom covering it",
+		violate(c, "bloom-false-negative/"+what+"/"+logTok(l, 0), "a log's address/topic tests negative in the bloom covering it",
 			map[string]string{"bloom": vh.Hex(bloom[:]), "log": logTok(l, 0), "item": miss})
 	}
 }
@@ -600,9 +693,12 @@ func (w *world) genCriteria(r *vh.RNG) criteria {
 	}
 	na := []int{0, 0, 1, 1, 2, 3}[r.Intn(6)]
 	for i := 0; i < na; i++ {
-		if r.Chance(15) {
+		switch {
+		case r.Chance(15):
 			cr.addrs = append(cr.addrs, foreignA())
-		} else {
+		case i > 0 && r.Chance(15):
+			cr.addrs = append(cr.addrs, cr.addrs[0]) // duplicate
+		default:
 			cr.addrs = append(cr.addrs, w.addrPool[r.Intn(len(w.addrPool))])
 		}
 	}
@@ -614,15 +710,91 @@ func (w *world) genCriteria(r *vh.RNG) criteria {
 		}
 		var alts []common.Hash
 		for j := 1 + r.Intn(3); j > 0; j-- {
-			if r.Chance(12) {
+			switch {
+			case r.Chance(12):
 				alts = append(alts, foreignT())
-			} else {
+			case len(cr.addrs) > 0 && r.Chance(25): // a related form of a queried address
+				rel := relatedTopics(cr.addrs[r.Intn(len(cr.addrs))])
+				alts = append(alts, rel[r.Intn(len(rel))])
+			case len(alts) > 0 && r.Chance(15):
+				alts = append(alts, alts[0]) // duplicate alternative
+			default:
 				alts = append(alts, w.topPool[r.Intn(len(w.topPool))])
 			}
+		}
+		if i > 0 && len(cr.tops[i-1]) > 0 && r.Chance(10) {
+			alts = cr.tops[i-1] // same rule at two positions
 		}
 		cr.tops = append(cr.tops, alts)
 	}
 	return cr
+}
+
+// sweepCriteria: every pool address alone, every pool topic alone at every position, and the shapes
+// that need something specific (trailing / inner empty alternative lists, 4 and 5 positions,
+// duplicate addresses / alternatives / rules, an address together with its own padded forms)
+func (w *world) sweepCriteria() (out []criteria, cls []string) {
+	add := func(name string, cr criteria) { out = append(out, cr); cls = append(cls, name) }
+	wild := func(n int, last ...common.Hash) [][]common.Hash {
+		t := make([][]common.Hash, n)
+		if len(last) > 0 {
+			t = append(t, last)
+		}
+		return t
+	}
+	for _, a := range w.addrPool {
+		add("addr", criteria{addrs: []common.Address{a}})
+	}
+	for i, t := range w.topPool {
+		for _, pos := range []int{0, 1 + i%3} {
+			add(fmt.Sprintf("topic@%d", pos), criteria{tops: wild(pos, t)})
+		}
+	}
+	for i, a := range w.addrPool {
+		if i >= 11 {
+			break
+		}
+		for _, t := range relatedTopics(a) {
+			add("addr+own-related-topic@0", criteria{addrs: []common.Address{a}, tops: wild(0, t)})
+			add("addr+own-related-topic@1", criteria{addrs: []common.Address{a}, tops: wild(1, t)})
+		}
+		add("addr-duplicated", criteria{addrs: []common.Address{a, a}})
+		add("addr-or-next", criteria{addrs: []common.Address{w.addrPool[(i+1)%len(w.addrPool)], a}})
+	}
+	for i := 0; i+1 < len(w.topPool); i += 2 {
+		t, u := w.topPool[i], w.topPool[i+1]
+		add("trailing-empty", criteria{tops: [][]common.Hash{{t}, nil}})
+		add("trailing-empty-explicit", criteria{tops: [][]common.Hash{{t}, {}}})
+		add("inner-empty", criteria{tops: [][]common.Hash{{t}, nil, {u, t}}})
+		add("alt-duplicated", criteria{tops: [][]common.Hash{{t, t}}})
+		add("rule-duplicated", criteria{tops: [][]common.Hash{{t}, {t}}})
+		add("alts", criteria{tops: [][]common.Hash{{u, t}}})
+		add("4-positions", criteria{tops: [][]common.Hash{nil, nil, {t, u}, {u, t}}})
+	}
+	add("all", criteria{})
+	for n := 1; n <= 5; n++ {
+		add(fmt.Sprintf("%d-wildcards", n), criteria{tops: wild(n)})
+	}
+	return
+}
+
+// sweepRanges: ends not aligned to 8 blocks / to the section size, begin inside one section and end in a
+// later one, everything around sections*size and around head
+func (w *world) sweepRanges(size, indexed uint64) [][2]int64 {
+	s, ind, head := int64(size), int64(indexed), int64(w.head())
+	rs := [][2]int64{{3, 2*s + 5}, {s - 1, s}, {s, 2*s - 1}, {s + 1, 3*s + 2}, {1, 6}, {7, 7}, {8, 8}, {9, 17}, {0, 0},
+		{5, head - 3}, {head, -1}, {head - 1, head + 7}, {-1, -1}, {0, -1}, {s/2 + 1, head - s/2 - 2}}
+	if ind > 0 {
+		rs = append(rs, [][2]int64{{0, ind - 1}, {0, ind}, {ind - 1, ind + 1}, {ind, ind}, {ind - 1, ind - 1}, {ind + 1, -1},
+			{ind - s - 3, ind + s + 3}, {ind - 2, -1}, {3, ind - 2}}...)
+	}
+	var out [][2]int64
+	for _, x := range rs {
+		if x[0] >= -1 && x[1] >= -1 && (x[0] >= 0 || x[0] == -1) {
+			out = append(out, x)
+		}
+	}
+	return out
 }
 
 func (w *world) genRange(r *vh.RNG, indexed uint64) (int64, int64, string) {
@@ -719,7 +891,7 @@ func (w *world) runQuery(bk *backend, b, e int64, cr criteria, rangeCls string) 
 	cas := fmt.Sprintf("query %d %d %d %d %s %s", bk.size, bk.sections, b, e, cr.addrTok(), cr.topTok())
 	if p {
 		obs = fmt.Sprintf("panic %v", pv)
-		c.Violate("filter-logs-panic/"+cas, "Filter.Logs panics", map[string]string{"case": cas, "panic": fmt.Sprint(pv)})
+		violate(c, "filter-logs-panic/"+cas, "Filter.Logs panics", map[string]string{"case": cas, "panic": fmt.Sprint(pv)})
 	}
 	want := w.brute(b, e, cr)
 	key := ""
@@ -755,11 +927,11 @@ func (w *world) runQuery(bk *backend, b, e int64, cr criteria, rangeCls string) 
 		if len(got) < len(want) {
 			kind = "missing"
 		}
-		c.Violate("logs-query-inexact/"+kind+"/"+cas, "Filter.Logs differs from the brute-force scan of the canonical receipts",
+		violate(c, "logs-query-inexact/"+kind+"/"+cas, "Filter.Logs differs from the brute-force scan of the canonical receipts",
 			map[string]string{"case": cas, "filter": obs, "bruteforce": tagsTok(want)})
 	}
 	if obs == "err" {
-		c.Violate("logs-query-error/"+cas, "Filter.Logs returned an error on a healthy backend", map[string]string{"case": cas})
+		violate(c, "logs-query-error/"+cas, "Filter.Logs returned an error on a healthy backend", map[string]string{"case": cas})
 	}
 	// the returned logs are the stored ones (content), not just the right positions
 	for _, l := range resLogs {
@@ -775,7 +947,7 @@ func (w *world) runQuery(bk *backend, b, e int64, cr criteria, rangeCls string) 
 			}
 		}
 		if ref == nil || ref.Address != l.Address || !bytes.Equal(ref.Data, l.Data) || len(ref.Topics) != len(l.Topics) {
-			c.Violate("logs-query-content/"+cas, "returned log differs from the canonical receipt log", map[string]string{"case": cas, "log": logTok(l, tagOf(l))})
+			violate(c, "logs-query-content/"+cas, "returned log differs from the canonical receipt log", map[string]string{"case": cas, "log": logTok(l, tagOf(l))})
 		}
 	}
 }
@@ -857,7 +1029,7 @@ func (w *world) runMatcher(bk *backend, b, e uint64, cr criteria) {
 		}
 	}
 	if numsTok(want) != obs {
-		c.Violate("matcher-differs-from-bloomfilter/"+cas, "bloombits matcher result differs from bloomFilter over the headers of the range",
+		violate(c, "matcher-differs-from-bloomfilter/"+cas, "bloombits matcher result differs from bloomFilter over the headers of the range",
 			map[string]string{"case": cas, "matcher": obs, "bloomfilter": numsTok(want)})
 	}
 }
@@ -917,26 +1089,149 @@ func (w *world) dbRows(size uint64) rowSource {
 
 // ---------------------------------------------------------------- bloom-level checks on random logs
 
-func randLog(r *vh.RNG, pool [][]byte) *types.Log {
-	item := func(n int) []byte {
-		if len(pool) > 0 && r.Chance(50) {
-			b := make([]byte, n)
-			copy(b, pool[r.Intn(len(pool))])
-			return b
-		}
-		b := r.Bytes(n)
-		if r.Chance(10) {
-			for i := 0; i < n-1; i++ {
-				b[i] = 0
-			}
-		}
-		return b
+func randLog(r *vh.RNG, p valuePool) *types.Log {
+	l := &types.Log{Data: r.Bytes(r.Intn(5))}
+	if r.Chance(85) {
+		l.Address = p.addrs[r.Intn(len(p.addrs))]
+	} else {
+		copy(l.Address[:], r.Bytes(20))
 	}
-	l := &types.Log{Address: common.BytesToAddress(item(20)), Data: r.Bytes(r.Intn(5))}
 	for k := r.Intn(5); k > 0; k-- {
-		l.Topics = append(l.Topics, common.BytesToHash(item(32)))
+		switch {
+		case r.Chance(25): // a related form of this very log's address
+			rel := relatedTopics(l.Address)
+			l.Topics = append(l.Topics, rel[r.Intn(len(rel))])
+		case r.Chance(85):
+			l.Topics = append(l.Topics, p.tops[r.Intn(len(p.tops))])
+		default:
+			l.Topics = append(l.Topics, common.BytesToHash(r.Bytes(32)))
+		}
 	}
 	return l
+}
+
+func mkLog(a common.Address, ts ...common.Hash) *types.Log { return &types.Log{Address: a, Topics: ts} }
+func mkReceipts(rs ...[]*types.Log) types.Receipts {
+	var out types.Receipts
+	for _, logs := range rs {
+		out = append(out, &types.Receipt{Logs: logs})
+	}
+	return out
+}
+
+// every order/placement in which an address and a related topic can meet inside one block
+func relationCases(p valuePool) (cases []types.Receipts, names []string) {
+	add := func(name string, rs types.Receipts) { cases = append(cases, rs); names = append(names, name) }
+	relName := []string{"lpad", "rpad", "dirtypad", "shifted"}
+	for ai := 0; ai < 3; ai++ {
+		A, B := p.addrs[ai], p.addrs[(ai+1)%3]
+		X, Y := p.tops[len(p.tops)-3], p.tops[len(p.tops)-4]
+		for ti, T := range relatedTopics(A) {
+			n := relName[ti]
+			add(n+"/same-log", mkReceipts([]*types.Log{mkLog(A, T)}))
+			add(n+"/same-log-pos3", mkReceipts([]*types.Log{mkLog(A, X, Y, X, T)}))
+			add(n+"/topic-then-emitter", mkReceipts([]*types.Log{mkLog(B, T), mkLog(A)}))
+			add(n+"/emitter-then-topic", mkReceipts([]*types.Log{mkLog(A), mkLog(B, T)}))
+			add(n+"/other-receipt-before", mkReceipts([]*types.Log{mkLog(B, T)}, []*types.Log{mkLog(A)}))
+			add(n+"/other-receipt-after", mkReceipts([]*types.Log{mkLog(A)}, []*types.Log{mkLog(B, X, T)}))
+			add(n+"/topic-repeated", mkReceipts([]*types.Log{mkLog(B, T, T, T, T), mkLog(B, X, T), mkLog(A, T, X)}))
+		}
+		add("address-repeated", mkReceipts([]*types.Log{mkLog(A, X), mkLog(A, Y), mkLog(A)}, []*types.Log{mkLog(A, Y, X)}))
+		add("topic-shared-across-receipts", mkReceipts([]*types.Log{mkLog(A, X)}, []*types.Log{mkLog(B, X)}, []*types.Log{mkLog(B, Y, X)}))
+		add("address-as-both-paddings", mkReceipts([]*types.Log{mkLog(A, lpad(B), rpad(B)), mkLog(B, rpad(A), lpad(A))}))
+	}
+	return
+}
+
+// one block's worth of receipts: CreateBloom / LogsBloom / BloomLookup / filterLogs / bloomFilter
+// against the model, and the no-false-negative oracle over EVERY address and topic of every log
+func checkReceiptSet(c *vh.Ctx, m *vh.Model, r *vh.RNG, p valuePool, rs types.Receipts, class string) {
+	total := 0
+	for _, rc := range rs {
+		total += len(rc.Logs)
+	}
+	tok := receiptsTok(rs, 0)
+	cb := types.CreateBloom(rs)
+	key := ""
+	if total > 0 {
+		key = "cb-" + tok
+	}
+	c.Eval(class, key)
+	c.Correspond("types.CreateBloom~create_bloom", tok, vh.Hex(cb[:]), m.Ask("createbloom "+tok))
+	cbHex := vh.Hex(cb[:])
+	lookup := func(what string, x []byte) {
+		obs := types.BloomLookup(cb, common.BytesToHash(x))
+		if len(x) == 20 {
+			obs = types.BloomLookup(cb, common.BytesToAddress(x))
+		}
+		c.Correspond("types.BloomLookup~bloom_lookup", what+" "+cbHex+" "+vh.Hex(x), fmt.Sprint(obs), m.Ask("lookup "+cbHex+" "+vh.Hex(x)))
+	}
+	for _, rc := range rs {
+		lb := types.BytesToBloom(types.LogsBloom(rc.Logs).Bytes())
+		rt := receiptTok(rc.Logs, 0)
+		c.Correspond("types.LogsBloom~logs_bloom", rt, vh.Hex(lb[:]), m.Ask("logsbloom "+rt))
+		for _, l := range rc.Logs {
+			checkNoFalseNegative(c, "logsbloom", lb, l)
+			checkNoFalseNegative(c, "createbloom", cb, l)
+			lookup("member", l.Address[:])
+			if n := len(l.Topics); n > 0 {
+				lookup("member", l.Topics[r.Intn(n)][:])
+			}
+		}
+	}
+	// the related-but-different values must agree with the model too (usually negative)
+	if total > 0 {
+		l := rs[len(rs)-1].Logs
+		if len(l) > 0 {
+			rel := relatedTopics(l[0].Address)
+			lookup("related", rel[r.Intn(len(rel))][:])
+			if len(l[0].Topics) > 0 {
+				lookup("related", lowAddr(l[0].Topics[0]).Bytes())
+				lookup("related", highAddr(l[0].Topics[0]).Bytes())
+			}
+		}
+	}
+	lookup("pool", p.tops[r.Intn(len(p.tops))][:])
+	lookup("random", r.Bytes(32))
+	// filterLogs / bloomFilter on the flattened logs with criteria from the same pool
+	var flat []*types.Log
+	for _, rc := range rs {
+		flat = append(flat, rc.Logs...)
+	}
+	for i, l := range flat {
+		l.Index = uint(i)
+	}
+	w := &world{allLogs: flat, addrPool: p.addrs, topPool: p.tops}
+	for q := 0; q < 2; q++ {
+		cr := w.genCriteria(r)
+		ft := receiptTok(flat, 0)
+		var got []uint64
+		for _, l := range filters.VerifFilterLogs(flat, cr.addrs, cr.tops) {
+			got = append(got, uint64(l.Index))
+		}
+		var want []uint64
+		for _, l := range flat {
+			if oracleMatch(l, cr) {
+				want = append(want, uint64(l.Index))
+			}
+		}
+		cas := fmt.Sprintf("filterlogs %s %s %s", ft, cr.addrTok(), cr.topTok())
+		key := ""
+		if len(want) > 0 {
+			key = cas
+		}
+		c.Eval("filterlogs/"+cr.shape(), key)
+		c.Correspond("filters.filterLogs~filter_logs", cas, tagsTok(got), m.Ask(cas))
+		if tagsTok(got) != tagsTok(want) {
+			violate(c, "filterlogs-inexact/"+cas, "filterLogs differs from the matching rule", map[string]string{"case": cas, "got": tagsTok(got), "want": tagsTok(want)})
+		}
+		bf := filters.VerifBloomFilter(cb, cr.addrs, cr.tops)
+		bcas := fmt.Sprintf("bloomfilter %s %s %s", cbHex, cr.addrTok(), cr.topTok())
+		c.Correspond("filters.bloomFilter~bloom_filter", bcas, fmt.Sprint(bf), m.Ask(bcas))
+		if len(want) > 0 && !bf {
+			violate(c, "bloomfilter-false-negative/"+cas, "bloomFilter rejects a bloom that covers a matching log", map[string]string{"case": cas})
+		}
+	}
 }
 
 func bloomLevel(c *vh.Ctx, m *vh.Model) {
@@ -946,17 +1241,18 @@ func bloomLevel(c *vh.Ctx, m *vh.Model) {
 		b := r.Bytes([]int{20, 32, 0, 1, 135, 136, 137}[i%7])
 		c.Correspond("crypto.Keccak256~keccak256", vh.Hex(b), vh.Hex(crypto.Keccak256(b)), m.Ask("keccak "+vh.Hex(b)))
 	}
-	var pool [][]byte
-	for i := 0; i < 12; i++ {
-		pool = append(pool, r.Bytes(32))
+	p := sharedPool(r, 6)
+	var items [][]byte
+	for _, a := range p.addrs {
+		items = append(items, a.Bytes())
 	}
-	nItems := c.Scale(60, 600)
-	for i := 0; i < nItems; i++ {
-		n := []int{20, 32, 32, 20, 0, 1, 33}[r.Intn(7)]
-		b := r.Bytes(n)
-		if i < len(pool) {
-			b = pool[i]
-		}
+	for _, t := range p.tops {
+		items = append(items, t.Bytes())
+	}
+	for i := c.Scale(20, 400); i > 0; i-- {
+		items = append(items, r.Bytes([]int{20, 32, 32, 20, 0, 1, 33}[r.Intn(7)]))
+	}
+	for _, b := range items {
 		hx := vh.Hex(b)
 		bl := types.BytesToBloom(types.Bloom9(b).Bytes())
 		c.Eval("bloom9/len="+fmt.Sprint(len(b)), "b9-"+hx)
@@ -969,94 +1265,27 @@ func bloomLevel(c *vh.Ctx, m *vh.Model) {
 			want.SetBit(want, int(k), 1)
 		}
 		if want.Cmp(types.Bloom9(b)) != 0 {
-			c.Violate("bloom-index-disagree/"+hx, "calcBloomIndexes and bloom9 disagree on the bit positions", map[string]string{"item": hx})
+			violate(c, "bloom-index-disagree/"+hx, "calcBloomIndexes and bloom9 disagree on the bit positions", map[string]string{"item": hx})
 		}
 	}
+	// deterministic: every address/topic relation in every order and placement
+	cases, names := relationCases(p)
+	for i, rs := range cases {
+		checkReceiptSet(c, m, r, p, rs, "createbloom/relation/"+names[i])
+	}
+	// random log sets over the shared pool
 	nSets := c.Scale(40, 400)
 	for i := 0; i < nSets; i++ {
 		var rs types.Receipts
 		nr := r.Intn(4)
-		total := 0
 		for j := 0; j < nr; j++ {
 			rc := &types.Receipt{}
 			for k := r.Intn(4); k > 0; k-- {
-				rc.Logs = append(rc.Logs, randLog(r, pool))
-				total++
+				rc.Logs = append(rc.Logs, randLog(r, p))
 			}
 			rs = append(rs, rc)
 		}
-		tok := receiptsTok(rs, 0)
-		cb := types.CreateBloom(rs)
-		key := ""
-		if total > 0 {
-			key = "cb-" + tok
-		}
-		c.Eval(fmt.Sprintf("createbloom/receipts=%d", nr), key)
-		c.Correspond("types.CreateBloom~create_bloom", tok, vh.Hex(cb[:]), m.Ask("createbloom "+tok))
-		if nr > 0 {
-			lb := types.BytesToBloom(types.LogsBloom(rs[0].Logs).Bytes())
-			rt := receiptTok(rs[0].Logs, 0)
-			c.Correspond("types.LogsBloom~logs_bloom", rt, vh.Hex(lb[:]), m.Ask("logsbloom "+rt))
-		}
-		// members test positive (oracle), members and non-members agree with the model
-		for _, rc := range rs {
-			for _, l := range rc.Logs {
-				checkNoFalseNegative(c, "createbloom", cb, l)
-				c.Correspond("types.BloomLookup~bloom_lookup", "member", fmt.Sprint(types.BloomLookup(cb, l.Address)),
-					m.Ask("lookup "+vh.Hex(cb[:])+" "+vh.Hex(l.Address[:])))
-			}
-		}
-		for k := 0; k < 3; k++ {
-			x := common.BytesToHash(r.Bytes(32))
-			if k == 0 {
-				x = common.BytesToHash(pool[r.Intn(len(pool))])
-			}
-			c.Correspond("types.BloomLookup~bloom_lookup", vh.Hex(x[:]), fmt.Sprint(types.BloomLookup(cb, x)),
-				m.Ask("lookup "+vh.Hex(cb[:])+" "+vh.Hex(x[:])))
-		}
-		// filterLogs / bloomFilter on the flattened logs with criteria from the same pool
-		var flat []*types.Log
-		for _, rc := range rs {
-			flat = append(flat, rc.Logs...)
-		}
-		for i, l := range flat {
-			l.Index = uint(i)
-		}
-		for q := 0; q < 3; q++ {
-			w := &world{allLogs: flat}
-			for _, p := range pool[:6] {
-				w.addrPool = append(w.addrPool, common.BytesToAddress(p[:20]))
-				w.topPool = append(w.topPool, common.BytesToHash(p))
-			}
-			cr := w.genCriteria(r)
-			ft := receiptTok(flat, 0)
-			var got []uint64
-			for _, l := range filters.VerifFilterLogs(flat, cr.addrs, cr.tops) {
-				got = append(got, uint64(l.Index))
-			}
-			var want []uint64
-			for _, l := range flat {
-				if oracleMatch(l, cr) {
-					want = append(want, uint64(l.Index))
-				}
-			}
-			cas := fmt.Sprintf("filterlogs %s %s %s", ft, cr.addrTok(), cr.topTok())
-			key := ""
-			if len(want) > 0 {
-				key = cas
-			}
-			c.Eval("filterlogs/"+cr.shape(), key)
-			c.Correspond("filters.filterLogs~filter_logs", cas, tagsTok(got), m.Ask(cas))
-			if tagsTok(got) != tagsTok(want) {
-				c.Violate("filterlogs-inexact/"+cas, "filterLogs differs from the matching rule", map[string]string{"case": cas, "got": tagsTok(got), "want": tagsTok(want)})
-			}
-			bf := filters.VerifBloomFilter(cb, cr.addrs, cr.tops)
-			bcas := fmt.Sprintf("bloomfilter %s %s %s", vh.Hex(cb[:]), cr.addrTok(), cr.topTok())
-			c.Correspond("filters.bloomFilter~bloom_filter", bcas, fmt.Sprint(bf), m.Ask(bcas))
-			if len(want) > 0 && !bf {
-				c.Violate("bloomfilter-false-negative/"+cas, "bloomFilter rejects a bloom that covers a matching log", map[string]string{"case": cas})
-			}
-		}
+		checkReceiptSet(c, m, r, p, rs, fmt.Sprintf("createbloom/random/receipts=%d", nr))
 	}
 }
 
@@ -1183,7 +1412,7 @@ func main() {
 	stage("generator-level")
 
 	// ---- short chain: sizes 8 and 64, harness-built index, every progress state
-	short := buildWorld(c, m, c.Scale(300, 700), 30)
+	short := buildWorld(c, m, c.Scale(303, 703), 30) // 304 / 704 blocks with genesis: a whole number of 8- and 64-block sections
 	short.loadModel()
 	stage("short chain build+load")
 	c.Note("short chain: %d blocks, %d logs", len(short.headers), len(short.allLogs))
@@ -1207,6 +1436,45 @@ func main() {
 			}
 			cas := fmt.Sprintf("row %d %d %d", size, s, bit)
 			c.Correspond("Generator rows(chain section)~index_of_chain", cas, vh.Hex(rows(bit, s)), m.Ask(cas))
+		}
+		newBk := func(sections uint64) *backend {
+			return &backend{w: short, size: size, sections: sections, rows: rows, threads: 1 + r.Intn(3), batch: []int{1, 4, 16}[r.Intn(3)], mux: new(event.TypeMux)}
+		}
+		// deterministic sweep 1: every pool value and every special criteria shape over the whole chain,
+		// through the indexed path (all sections), a half-indexed state and the unindexed path
+		scr, scls := short.sweepCriteria()
+		for i, cr := range scr {
+			for k, sections := range []uint64{full, 3, 0} {
+				if (size == 64 && i%3 != 0) || (k == 1 && (i%3 != 1 || size == 64)) {
+					continue // size 64 and the half-indexed state take every third shape
+				}
+				// blocks 1..22 call every emitter alone; 48 / 128 blocks keep the unindexed scans short
+				end := int64(47)
+				if size == 64 {
+					end = 127
+				}
+				if sections*size > uint64(end)+1 {
+					sections = (uint64(end) + 1) / size
+				}
+				short.runQuery(newBk(sections), 0, end, cr, "sweep/"+scls[i])
+			}
+		}
+		// deterministic sweep 2: range shapes x progress, with criteria that hit in most blocks
+		dense := []criteria{{}, {addrs: []common.Address{short.addrPool[2], short.addrPool[0]}, tops: [][]common.Hash{nil}}}
+		for _, sections := range []uint64{full, full/2 + 1, 0} {
+			for _, rg := range short.sweepRanges(size, sections*size) {
+				for _, cr := range dense {
+					short.runQuery(newBk(sections), rg[0], rg[1], cr, "sweep-range")
+				}
+			}
+		}
+		for _, rg := range short.sweepRanges(size, full*size) {
+			if rg[0] < 0 || rg[1] < 0 || uint64(rg[1]) >= full*size {
+				continue
+			}
+			for _, cr := range dense {
+				short.runMatcher(newBk(full), uint64(rg[0]), uint64(rg[1]), cr)
+			}
 		}
 		nq := c.Scale(150, 600)
 		for q := 0; q < nq; q++ {
@@ -1267,6 +1535,24 @@ func main() {
 		c.Correspond("BloomIndexer.Commit(section 0)~process_section", fmt.Sprintf("section %d 0", size), cs, m.Ask(fmt.Sprintf("section %d 0", size)))
 		if known != "0" && got == 0 {
 			c.Note("bloombits-bitset-bound-uses-sections: section size %d: %s sections are confirmed but the production indexer stores 0 (Generator.Bitset rejects bit index >= %d: %s); log queries stay exact through the unindexed path (checked below with BloomStatus sections = 0), they are only not accelerated", size, known, size, cs)
+		}
+		// deterministic: through the production index, the emitters called alone in blocks 1..22 and their
+		// padded-address topics; windows around sections*size
+		prodBk := func() *backend {
+			return &backend{w: long, size: size, sections: got, rows: long.dbRows(size), threads: 3, batch: 16, mux: new(event.TypeMux)}
+		}
+		if got > 0 {
+			for i := 0; i < 11; i++ {
+				a := long.addrPool[i]
+				long.runQuery(prodBk(), 0, 40, criteria{addrs: []common.Address{a}}, "prod-sweep/addr")
+				long.runQuery(prodBk(), 3, 37, criteria{tops: [][]common.Hash{{lpad(a)}}}, "prod-sweep/topic@0")
+				long.runQuery(prodBk(), 0, 40, criteria{tops: [][]common.Hash{nil, {lpad(a), rpad(a)}}}, "prod-sweep/topic@1")
+			}
+			ind := int64(got * size)
+			for _, rg := range [][2]int64{{ind - 9, ind + 9}, {ind - 1, ind}, {ind, ind + 1}, {ind - 8, ind - 1}, {ind - 3, -1}, {ind - 70, ind - 60}} {
+				long.runQuery(prodBk(), rg[0], rg[1], criteria{}, "prod-sweep/boundary")
+				long.runQuery(prodBk(), rg[0], rg[1], criteria{addrs: []common.Address{long.addrPool[2], long.addrPool[0]}}, "prod-sweep/boundary")
+			}
 		}
 		// queries against the production index (rows read from the database exactly as aqua/bloombits.go does)
 		nq := c.Scale(8, 60)
